@@ -610,3 +610,22 @@ func NearPos(ins ssa.Instruction) token.Pos {
 	}
 	return ins.Parent().Pos()
 }
+
+// Controls reports whether the If ending block b decides whether target is
+// reached: exactly one of its successors can reach target without coming back
+// through b. Returns (controls, index of the successor that reaches it).
+func Controls(b *ssa.BasicBlock, target *ssa.BasicBlock) (bool, int) {
+	if len(b.Succs) != 2 {
+		return false, -1
+	}
+	avoid := map[*ssa.BasicBlock]bool{b: true}
+	r0 := b.Succs[0] == target || BlockReaches(b.Succs[0], target, avoid)
+	r1 := b.Succs[1] == target || BlockReaches(b.Succs[1], target, avoid)
+	if r0 == r1 {
+		return false, -1
+	}
+	if r0 {
+		return true, 0
+	}
+	return true, 1
+}
